@@ -476,6 +476,36 @@ class World(object):
           # daemon's self-metrics (under CARBON_METRIC_PREFIX; not part of the generated history)
           h.ticks = getattr(h, 'ticks', 0) + 1
           h.self_prefix = self.settings.CARBON_METRIC_PREFIX + '.'
+          # every statistic the tick records for the cache is a datapoint offered to it: it reaches store() (where it is
+          # kept, or refused with the overflow signal) or the overflow signal is raised for it some other way
+          real_record, real_store = self.instr.cache_record, cache.store
+          me_ = threading.current_thread()
+          tickst = dict(records=0, silent=0, in_record=False, stored=0, ovf=0)
+
+          def on_ovf():
+            if tickst['in_record'] and threading.current_thread() is me_:
+              tickst['ovf'] += 1
+
+          def store_(metric, datapoint):
+            if tickst['in_record'] and threading.current_thread() is me_:
+              tickst['stored'] += 1
+            return real_store(metric, datapoint)
+
+          def record_(metric, value):
+            tickst['records'] += 1
+            if metric == 'cache.overflow':
+              h.overflow_recorded = getattr(h, 'overflow_recorded', 0) + value      # the counter is reported and starts again
+            tickst['in_record'], tickst['stored'], tickst['ovf'] = True, 0, 0
+            try:
+              return real_record(metric, value)
+            finally:
+              tickst['in_record'] = False
+              if not self.settings.RELAY_CACHE_METRICS and not tickst['stored'] and not tickst['ovf']:
+                tickst['silent'] += 1
+                h.silent_self_metric = (metric, value, cache.size)
+          self.events.cacheOverflow.addHandler(on_ovf)
+          self.instr.cache_record = record_
+          cache.store = store_
           try:
             self.instr.recordMetrics()
           except S.Abort:
@@ -483,6 +513,12 @@ class World(object):
           except BaseException as e:
             h.exceptions.append(('recordMetrics', e))
             h.tick_exc = e
+          finally:
+            self.instr.cache_record = real_record
+            del cache.store
+            self.events.cacheOverflow.removeHandler(on_ovf)
+          h.tick_records = getattr(h, 'tick_records', 0) + tickst['records']
+          h.tick_silent = getattr(h, 'tick_silent', 0) + tickst['silent']
         elif k == 'call':
           op[1](h)
         else:
